@@ -546,7 +546,7 @@ def exchange_wsgi(ctx, app, req, knobs, state):
         try:
             iterator = iter(it)
             while True:
-                if streaming and ctx.opportunity('abandon'):
+                if streaming and knobs['faults'] and ctx.opportunity('abandon'):
                     state['fault'] = 'abandon'
                     ctx.probe('abandoned')
                     break
@@ -583,9 +583,15 @@ class _Conn(Conn):
         Conn.__init__(self, *a, **kw)
         self._ctx = ctx
         self._state = state
+        self._streaming = False
 
     async def send(self, event):
-        if not self.lost and self._ctx.opportunity('send_fail'):
+        # offered while a file body is being streamed (a send failure on an
+        # error response says nothing about C16 and only dilutes the sweep)
+        if event.get('type') == 'http.response.start':
+            self._streaming = event.get('status') in (200, 206) and self.scope['method'] == 'GET'
+        if (self._streaming and self._state['faults'] and not self.lost
+                and self._ctx.opportunity('send_fail')):
             self._state['fault'] = 'send_fail'
             self._ctx.probe('send_fail')
             self.lose(abrupt=True)
@@ -939,8 +945,8 @@ def _prewarm():
             req.range_val, req.ims_val = hdrs
             app = build_app(cfg, asgi, 4)
             knobs = {'file_wrapper': False, 'send_suspends': False, 'lost_mode': 'oserror',
-                     'predeliver': True}
-            (exchange_asgi if asgi else exchange_wsgi)(ctx, app, req, knobs, {})
+                     'predeliver': True, 'faults': False}
+            (exchange_asgi if asgi else exchange_wsgi)(ctx, app, req, knobs, {'faults': False})
 
 
 _prewarm()
@@ -958,12 +964,16 @@ def run(ctx):
     ctx.probe(stack + '_stack')
     knobs = {
         'block': BLOCKS[ch.weighted([2, 2, 3, 2, 2, 1, 2], 'block')],
+        # R4: a quarter of the workloads run with every fault off (and are not swept)
+        'faults': ch.draw(4, 'faults_on') != 0,
         'short': ch.draw(3, 'short_mode') == 2,
         'file_wrapper': bool(ch.draw(2, 'file_wrapper')) if not asgi else False,
         'send_suspends': bool(ch.draw(2, 'send_suspends')) if asgi else False,
         'lost_mode': ['oserror', 'drop'][ch.draw(2, 'lost_mode')] if asgi else 'oserror',
         'predeliver': bool(ch.draw(2, 'predeliver')) if asgi else True,
     }
+    if not knobs['faults']:
+        knobs['short'] = False
     v = cfg['view']
     show = TREE.show
     ctx.plan = {
@@ -987,13 +997,14 @@ def run(ctx):
 
     # ---- all workload draws are done; the fault site comes next, schedule
     # ---- draws (short-read lengths, loop scheduling) after it
-    ctx.draw_fault_site()
-    if knobs['short']:
-        ch.enable_fault('short_read', 1, 2)
-    state = {'fault': None, 'sched': ''}
+    if knobs['faults']:
+        ctx.draw_fault_site()
+        if knobs['short']:
+            ch.enable_fault('short_read', 1, 2)
+    state = {'fault': None, 'sched': '', 'faults': knobs['faults']}
 
     def fault(kind):
-        if ctx.opportunity(kind):
+        if knobs['faults'] and ctx.opportunity(kind):
             state['fault'] = kind
             return True
         return False
@@ -1024,6 +1035,8 @@ def run(ctx):
     if reads >= 3:
         ctx.probe('multi_read_body')
     fk = state['fault']
+    if fk is None and not ctl.short_reads:
+        ctx.probe('fault_free_run')
     ctx.event('req', stack, req.method, req.shown, req.range_val, req.ims_val)
     ctx.event('io', ''.join(ctl.trace), 'fault', fk, 'opens',
               [show(p) for p in opens])
